@@ -27,6 +27,12 @@ def spec_header_len(bits):
     return 4 + 10 * bits[hb["UEH"]] + 4 * bits[hb["WEID"]] + 4 * bits[hb["WSID"]] + 4 * bits[hb["WTMS"]]
 
 
+def spec_header_len_min(bits):
+    """Lower bound of the header length over every completion of the header-type bits not tested on this path."""
+    hb = dlt_spec.HTYP_BITS
+    return 4 + 10 * bits.get(hb["UEH"], 0) + 4 * bits.get(hb["WEID"], 0) + 4 * bits.get(hb["WSID"], 0) + 4 * bits.get(hb["WTMS"], 0)
+
+
 def run(ctx):
     F, R = ctx.facts, ctx.report
     R.explanation = ("CONS: every Ok exit of dlt_message_intern returns input[A+L..] (A = start of the standard header after skipped junk and the 16-byte storage header, "
